@@ -658,13 +658,20 @@ func oracle(c Case) (out vkit.Outcome) {
 
 	// where does the spelling lead? (needs the links on disk)
 	fx.prepare("A", c.Layout)
-	lex := path
+	// A name with a NUL byte reaches nothing through Go's os package, but an
+	// API that takes C strings sees the part before the NUL: that part is
+	// what is resolved.
+	seen := path
+	if i := strings.IndexByte(seen, 0); i >= 0 {
+		seen = seen[:i]
+	}
+	lex := seen
 	if !filepath.IsAbs(lex) {
 		lex = filepath.Join(fx.root, lex)
 	}
 	lex = filepath.Clean(lex)
-	kernel := resolveM(fx.root, path)
-	escapes := !strings.ContainsRune(path, 0) && (!within(lex, fx.root) || (kernel != "" && !within(kernel, fx.root)))
+	kernel := resolveM(fx.root, seen)
+	escapes := !within(lex, fx.root) || (kernel != "" && !within(kernel, fx.root))
 	if c.Mech == "none-bypass" {
 		escapes = true // a relative name that exists only in the process cwd
 	}
